@@ -94,7 +94,7 @@ func TestVerifC19_histogram_invalid(t *testing.T) {
 			c19H(6, 4),
 		},
 		Shares:     []int{2, 3},
-		Seeds:      r.Pick(2, 5),
+		Seeds:      r.Pick(2, 3),
 		ProductCap: r.Pick(4096, 65536),
 		SetLimit:   4096,
 	}
